@@ -504,3 +504,20 @@ def run(ctx):
     # the node of a pid, port or reference is usually an ATOM_CACHE_REF: it resolves through what earlier headers entered (C14 rules re-run)
     from .c14 import cache_threading
     cache_threading(ctx, 'C10.9-cache-kept')
+    # the node of an identifier goes out as a slot number: the slots the body refers to are the slots the header defines (<= 255 atoms, one list for both)
+    from .c01 import reviewed_premises
+    ctx.rule('C10.9-header-slots', 'the header writer refuses more distinct atoms than a header has slots for before any position is narrowed to a slot number, and the list the slot numbers are taken from '
+             'is not shortened afterwards (a slot number the header does not define names another node on the receiving side)', floor=1)
+    reviewed_premises(ctx, 'C10.9-header-slots')
+    WB = ctx.P.B(ENC + 'encode_with_dist_header_multi')
+    if WB is not None:
+        maps = [bb for bb, t in WB.calls() if any(n.endswith('::insert') for n in callee_names(t)) and 'HashMap<&erltf::types::Atom, u8>' in ((t.get('aty') or [''])[0])]
+        maps += [bb for bb, t in WB.calls() if any(n.endswith('Iterator::collect') for n in callee_names(t)) and 'HashMap<&erltf::types::Atom, u8>' in WB.local_ty(t['dst']['l'])]
+        shr = [(bb, callee_names(t)[0].rsplit('::', 1)[1]) for bb, t in WB.calls() if bb in WB.live_blocks() and 'mut' in ((t.get('aty') or [''])[0]) and 'Vec<&erltf::types::Atom>' in ((t.get('aty') or [''])[0])
+               and any(n.endswith(('::truncate', '::pop', '::remove', '::swap_remove', '::drain', '::retain', '::split_off', '::clear', '::dedup')) for n in callee_names(t))]
+        late = [(bb, nm) for bb, nm in shr if any(bb in WB.reachable(m) for m in maps)]
+        if late:
+            ctx.bad('C10.9-header-slots', 'list-shortened-after-numbering', 'the atom list is shortened (%s) after the atom -> slot map was built from it: atoms beyond the cut keep slot numbers the header no longer defines' % late[0][1],
+                    ctx.where(WB, late[0][0]), key='ORDER:%sencode_with_dist_header_multi:list-shortened-after-numbering' % ENC)
+        else:
+            ctx.ok('C10.9-header-slots', 'list-shortened-after-numbering', '%d numbering site(s); the list is not shortened after them' % len(maps))
